@@ -9,6 +9,7 @@ The same workloads run against the ASan+UBSan build (flavour 'asan'); a report w
 is a violation.
 """
 import itertools
+import sys
 
 import numpy
 
@@ -55,6 +56,8 @@ def cases(tier, seed):
         out.append({"gen": "dgelss", "id": "dgelss-%d" % k, "sub": seed * 100003 + k})
     for k in range(4):
         out.append({"gen": "dgelss", "id": "dgelss-asan-%d" % k, "sub": seed * 100003 + 7000 + k, "flavour": "asan"})
+    if tier == "thorough":
+        out.append({"gen": "memcheck", "id": "memcheck"})
     return out
 
 
@@ -379,8 +382,60 @@ def run_dgelss(case, ctx):
     ctx.cls("dgelss")
 
 
+def run_memcheck(case, ctx):
+    """Valgrind memcheck (the only tool here that sees uninitialised reads) on a small workload; only error
+    contexts with a frame inside an mlinsights extension count."""
+    import os
+    import re
+    import subprocess
+    import tempfile
+    from vrt import build_ext
+    log = tempfile.mktemp(prefix="memcheck-", suffix=".log", dir=os.path.join(build_ext.VERIF, ".work"))
+    env = dict(os.environ, PYTHONMALLOC="malloc", PYTHONPATH=build_ext.VERIF, VERIF_EXT_FLAVOUR="plain")
+    env.pop("LD_PRELOAD", None)
+    try:
+        p = subprocess.run(["valgrind", "--tool=memcheck", "--error-limit=no", "--num-callers=16",
+                            "--log-file=" + log, sys.executable if False else "/venv/bin/python", "-m",
+                            "vrt.memcheck_workload"], cwd=build_ext.VERIF, env=env, stdout=subprocess.PIPE,
+                           stderr=subprocess.STDOUT, timeout=900)
+    except (OSError, subprocess.TimeoutExpired) as e:
+        ctx.excluded("memcheck unavailable or timed out: %s" % type(e).__name__)
+        return
+    out = p.stdout.decode("utf8", "replace")
+    if "MEMCHECK-WORKLOAD" not in out:
+        ctx.excluded("memcheck workload did not complete")
+        return
+    ctx.hit("memcheck.workload")
+    text = open(log, errors="replace").read() if os.path.exists(log) else ""
+    blocks = re.split(r"\n==\d+== \n", text)
+    ours, foreign = [], 0
+    for b in blocks:
+        if not re.search(r"(Invalid (read|write)|uninitialised|Mismatched free|Invalid free|Source and destination)", b):
+            continue
+        if re.search(r"piecewise_tree_regression|direct_blas_lapack|_tree_digitize", b):
+            ours.append(b[:1500])
+        else:
+            foreign += 1
+    ctx.extra["memcheck"] = {"error_contexts_with_mlinsights_frame": len(ours), "foreign_contexts": foreign,
+                             "workload": out.strip().splitlines()[-1][:200]}
+    for b in ours[:3]:
+        ctx.violation("C09/memcheck/report", "valgrind memcheck reports an error with a frame inside an mlinsights "
+                      "extension", report=b)
+    try:
+        os.remove(log)
+    except OSError:
+        pass
+
+
 def run_case(case, ctx):
+    if case["gen"] == "memcheck":
+        return run_memcheck(case, ctx)
     {"crit": run_crit, "tree": run_tree, "dgelss": run_dgelss, "underdet": run_underdet}[case["gen"]](case, ctx)
+
+
+def summarize(extras, counters):
+    mc = [e["memcheck"] for e in extras if "memcheck" in e]
+    return {"memcheck": mc[0] if mc else "not run in this tier"}
 
 
 def evaluations(counters, ncases):
